@@ -2,7 +2,9 @@ package main
 
 import (
 	"bytes"
+	"encoding/json"
 	"fmt"
+	"time"
 	"unsafe"
 
 	"github.com/philpearl/avro"
@@ -89,13 +91,42 @@ func c02NilCollectionPointers(r *Run) {
 	}
 }
 
+type c01WideRes struct {
+	Bad string `json:"bad"`
+}
+
+func init() {
+	workerFns["c01wide"] = func(arg json.RawMessage) (any, error) {
+		var codec string
+		if err := json.Unmarshal(arg, &codec); err != nil {
+			return nil, err
+		}
+		return c01WideRes{Bad: c01WideMapOne(codec)}, nil
+	}
+}
+
+// c01WideMapValues runs in a child process: a map whose memory was damaged takes the whole
+// process with it (or hangs it) as soon as it is looked at.
 func c01WideMapValues(r *Run) {
 	for _, codec := range codecNames {
+		var res c01WideRes
+		outcome, msg := isolated("c01wide", codec, &res, 30*time.Second)
+		r.Count("wide-map-values/" + codec)
+		switch {
+		case outcome != "ok":
+			r.Fail(-1, "roundtrip-read-error", fmt.Sprintf("maps whose values are 144 bytes wide (%s), written by the Encoder and read back: the process %s (%s)", codec, outcome, msg), map[string]any{"codec": codec})
+		case res.Bad != "":
+			r.Fail(-1, "roundtrip-value", fmt.Sprintf("maps whose values are 144 bytes wide (%s): %s", codec, res.Bad), map[string]any{"codec": codec})
+		}
+	}
+}
+
+func c01WideMapOne(codec string) string {
+	{
 		var buf bytes.Buffer
 		enc, err := avro.NewEncoderFor[c01WideMap](&buf, avro.Compression(codec), 300)
 		if err != nil {
-			r.Fail(-1, "roundtrip-write-error", "NewEncoderFor[c01WideMap]: "+err.Error(), nil)
-			return
+			return "NewEncoderFor[c01WideMap]: " + err.Error()
 		}
 		mk := func(i, k int) c01Wide {
 			var w c01Wide
@@ -118,8 +149,7 @@ func c01WideMapValues(r *Run) {
 				}
 			}
 			if err := enc.Encode(&v); err != nil {
-				r.Fail(-1, "roundtrip-write-error", "Encode: "+err.Error(), nil)
-				return
+				return "Encode: " + err.Error()
 			}
 		}
 		enc.Flush()
@@ -158,9 +188,9 @@ func c01WideMapValues(r *Run) {
 				return nil
 			})
 		}()
-		r.Count("wide-map-values/" + codec)
 		if err != nil || n != rows || bad != "" {
-			r.Fail(-1, "roundtrip-value", fmt.Sprintf("maps whose values are 152 bytes wide (%s): %d of %d records, error %v; %s", codec, n, rows, err, bad), map[string]any{"codec": codec})
+			return fmt.Sprintf("%d of %d records, error %v; %s", n, rows, err, bad)
 		}
 	}
+	return ""
 }
